@@ -22,6 +22,9 @@ func schedCheck(rule string) func(c *h.Ctx) {
 		// race-detector pass on a lighter sample of the same workload
 		runWorkers(c, workerOpts{Mode: "sched", Race: true, Shards: 8, Timeout: time.Duration(c.N(8, 40)) * time.Minute, Extra: []string{"light=1"}, Anchors: schedAnchors})
 		runWorkers(c, workerOpts{Mode: "schedfree", Race: true, Shards: 4, Timeout: time.Duration(c.N(8, 30)) * time.Minute, Anchors: schedAnchors})
+		if c.ID == "C02" {
+			c02cli(c)
+		}
 		if c.ID == "C03" {
 			// cancelled runs on the real TaskRunner (child process each): caller Cancel and stage-condition error
 			var specs []cancelSpec
